@@ -1455,7 +1455,9 @@ void gen_c19(Gen &g) {
       long idx = (p.run + i * 7) % (65 + 15);
       size = idx < 65 ? idx : pts[idx - 65];
     } else if (r.chance(1, 120))
-      size = r.range(5 * 4096, 60 * 4096);  // a large file (block-wise readers, size thresholds)
+      // a large file (block-wise readers, size thresholds, other ways of loading big files); every second one is a page
+      // multiple give or take two bytes
+      size = r.coin() ? r.range(5 * 4096, 60 * 4096) : 4096 * r.range(5, 60) + r.range(-2, 2);
     else if (sw < 3)
       size = r.range(0, 64);
     else if (sw < 7)
